@@ -958,6 +958,9 @@ func checkReadsFollowChain(w *World, r *Report) {
 			if _, ok := fieldLoad(lk.X, "RenderContext", "context"); !ok {
 				return
 			}
+			if !decidesOrYields(lk) {
+				return // remembered for later (save/restore records), not an answer
+			}
 			sites = append(sites, site{fn, lk})
 			hasSite[fn] = true
 		})
@@ -996,8 +999,16 @@ func checkReadsFollowChain(w *World, r *Report) {
 					if !ok || ex.Index != 1 || i != trueIdx {
 						return false
 					}
-					lk, ok := ex.Tuple.(*ssa.Lookup)
-					return ok && lk.CommaOk
+					if lk, ok := ex.Tuple.(*ssa.Lookup); ok {
+						return lk.CommaOk
+					}
+					// … through a (value, found) helper of the package
+					if c, ok := ex.Tuple.(*ssa.Call); ok {
+						if g := c.Call.StaticCallee(); g != nil && isTwigFn(g) && g.Signature.Results().Len() == 2 {
+							return types.Identical(g.Signature.Results().At(1).Type().Underlying(), types.Typ[types.Bool])
+						}
+					}
+					return false
 				})
 			}
 			bad := ""
@@ -1028,4 +1039,44 @@ func checkReadsFollowChain(w *World, r *Report) {
 		}
 	}
 	r.floor("by-name reads of a context's variable map", len(sites), 2)
+}
+
+
+// decidesOrYields: the result of the lookup reaches a branch or a return of its own function
+// (through extraction, negation, comparison, interface conversion, phis) — as opposed to being
+// put away in a closure or a record.
+func decidesOrYields(lk *ssa.Lookup) bool {
+	seen := map[ssa.Value]bool{}
+	work := []ssa.Value{lk}
+	for len(work) > 0 {
+		v := work[len(work)-1]
+		work = work[:len(work)-1]
+		if seen[v] || v.Referrers() == nil {
+			continue
+		}
+		seen[v] = true
+		for _, ref := range *v.Referrers() {
+			switch x := ref.(type) {
+			case *ssa.If, *ssa.Return:
+				return true
+			case *ssa.Extract:
+				work = append(work, x)
+			case *ssa.Phi:
+				work = append(work, x)
+			case *ssa.UnOp:
+				if x.Op == token.NOT {
+					work = append(work, x)
+				}
+			case *ssa.BinOp:
+				work = append(work, x)
+			case *ssa.MakeInterface:
+				work = append(work, x)
+			case *ssa.ChangeInterface:
+				work = append(work, x)
+			case *ssa.TypeAssert:
+				work = append(work, x)
+			}
+		}
+	}
+	return false
 }
